@@ -101,7 +101,8 @@ theorem float_literal_spec (binary : Bool) (toks : List Tok) (v : FPVal) (h : fl
     rtFloat binary toks = some v ∧ FCanon (if binary then 2 else 10) ⟨v.signif, v.exp⟩ :=
   floatLiteral_spec binary toks v h
 
--- ====================================================================== findings (code as it is)
+-- ====================================================================== findings
+-- the first two: the token loops before /repo e26a9db (fixed); the third: still open
 
 /-- `ibig!(--5)` expands to −5; the run-time parser rejects `--5` -/
 theorem int_double_sign_accepted :
